@@ -15,7 +15,7 @@ from typing import Any
 
 import world
 from graphsim import GRAPH_VALUED, SURGERY_OPS, gen_dsep_op, gen_surgery_op, model_op, op_valid
-from models import MG
+from models import MG, m_separated
 
 
 def _wchoice(rng: random.Random, pairs: list[tuple[Any, float]]) -> Any:
@@ -421,6 +421,49 @@ def gen_sweep_c04(seed: int, s: int, w: int, tier: str) -> dict:
     }
 
 
+def _targeted_edit_c04(rng: random.Random, g: dict, cur: MG, asked: list[dict]):
+    """An edit *between existing nodes inside the ancestral set* of a question that has already been asked:
+    the question's ancestral set stays the same, its answer (preferably) does not, and it is asked again after
+    the edit -- anything remembered per ancestral set, per district or per node from the first asking is stale.
+    Returns (step, new model, question) or None."""
+    asked = [q for q in asked if op_valid(q, cur)]
+    if not asked:
+        return None
+    order = g.get("order")
+    q = asked[rng.randrange(len(asked))]
+    a = q["a"]
+    K = sorted(cur.ancestors_inclusive([a["a"], a["b"], *a["C"]]))
+    if len(K) < 2:
+        return None
+    before = m_separated(cur, a["a"], a["b"], a["C"])
+    fallback = None
+    for _ in range(8):
+        u, v = rng.sample(K, 2)
+        kind = rng.choice(("d", "d", "b"))
+        if kind == "d":
+            if order is not None:
+                if u not in order or v not in order:
+                    continue
+                if order.index(u) > order.index(v):
+                    u, v = v, u
+            elif u in cur.descendants_inclusive([v]):
+                continue
+            if (u, v) in cur.D:
+                continue
+            m2 = MG(cur.N, cur.D | {(u, v)}, cur.B)
+        else:
+            if frozenset((u, v)) in cur.B:
+                continue
+            m2 = MG(cur.N, cur.D, cur.B | {frozenset((u, v))})
+        if not m2.is_acyclic():
+            continue
+        cand = ([kind, u, v], m2, q)
+        if m_separated(m2, a["a"], a["b"], a["C"]) != before:
+            return cand
+        fallback = fallback or cand
+    return fallback
+
+
 def gen_case_c04(seed: int, s: int, w: int, tier: str) -> dict:
     """Separation queries by 2-4 callers on shared ADMGs that keep being edited between rounds."""
     if _is_deep(s):
@@ -438,6 +481,7 @@ def gen_case_c04(seed: int, s: int, w: int, tier: str) -> dict:
     rounds = []
     asked4: list[dict] = []
     recent: dict[int, list] = {}  # nodes that the last edit of graph gi introduced
+    reask: list[dict] = []
     for r in range(nrounds):
         scripts: dict[str, list] = {}
         for i in range(K):
@@ -454,6 +498,11 @@ def gen_case_c04(seed: int, s: int, w: int, tier: str) -> dict:
                 if sp is not None:
                     script.append(sp)
             scripts[f"c{i}"] = script
+        # questions whose answer the last edit was aimed at are asked again, first thing, by some caller
+        for q in reask:
+            if op_valid(q, cur[q["t"][1]]):
+                scripts[f"c{rng.randrange(K)}"].insert(0, json.loads(json.dumps(q)))
+        reask = []
         asked4 += [sp for sc in scripts.values() for sp in sc if sp["op"] == "are_d_separated" and not sp["a"].get("bad")]
         rnd: dict[str, Any] = {"scripts": scripts}
         if r < nrounds - 1:
@@ -461,8 +510,25 @@ def gen_case_c04(seed: int, s: int, w: int, tier: str) -> dict:
             for gi in range(ngraphs):
                 if rng.random() < 0.7:
                     before = cur[gi].N
-                    steps, cur[gi] = _gen_evolve(rng, graphs[gi], cur[gi])
-                    recent[gi] = sorted(cur[gi].N - before)
+                    tq = None
+                    if rng.random() < 0.35:
+                        # the targeted edit is the ONLY edit of this round: no other builder call comes between the
+                        # first asking and the edit (another add_* call may happen to drop what was remembered)
+                        tq = _targeted_edit_c04(rng, graphs[gi], cur[gi], [q for q in asked4 if q["t"][1] == gi])
+                    if tq is not None:
+                        step, cur[gi], q = tq
+                        steps = [step]
+                        reask.append(q)
+                        recent[gi] = []
+                    else:
+                        steps, cur[gi] = _gen_evolve(rng, graphs[gi], cur[gi])
+                        recent[gi] = sorted(cur[gi].N - before)
+                        if rng.random() < 0.5:
+                            tq = _targeted_edit_c04(rng, graphs[gi], cur[gi], [q for q in asked4 if q["t"][1] == gi])
+                            if tq is not None:
+                                step, cur[gi], q = tq
+                                steps.append(step)
+                                reask.append(q)
                     ev.append([gi, steps])
             rnd["evolve"] = ev
         rounds.append(rnd)
